@@ -7,3 +7,7 @@ package bitcoin
 //@ func IsValidSignatureEncodingBIP0066
 //@   props C12 C07
 //@   ensures result <==> bip66(data)
+//@
+//@ func VerifyASN1
+//@   props C07 C12
+//@   ensures result <==> (bip66(sig) && len(digest) == 32 && dersig(sig[0:len(sig)-1]) && dersig_s(sig[0:len(sig)-1]) <= HALFN && ecdsa_ok(fn(os2ip(digest[0:32])), fn(dersig_r(sig[0:len(sig)-1])), fn(dersig_s(sig[0:len(sig)-1])), abs(k.point)))
